@@ -115,13 +115,15 @@ def verify_function(repo, contracts, c, registry=None, scope=None, opts=None):
         def run_one(E, variant=variant):
             E.cur_func = func
             a = Args(c.setup(E, variant))
+            E.ps["inputs"] = dict(a)
+            E.ps["variant"] = variant
             for name, g in named(c.requires(E, a)).items():
                 E.assume(g)
             if not E.feasible(z3.BoolVal(True)) and False:
                 pass
             old = c.old(E, a)
             E._top_measure = c.decreases(E, a) if c.decreases is not None else None
-            params = {k: v for k, v in a.items() if k not in c.free}
+            params = {k: v for k, v in a.items() if k not in c.free and not k.startswith("_")}
             env = None
             if c.free or func.parent is not None:
                 env = Frame(func.parent, func.module)
